@@ -263,3 +263,12 @@ def check_needs_end_check(ctx, rep, RULE="C02.d"):
             rep.check(ok, RULE, fnq, f"no early return => next transition [{key}]", "loop leaves early on a transition without early-returning actions")
     if not (saw_zero and saw_loop and n >= 2):
         raise AnalysisError("_needs_end_check: expected structure (flag test, loop over transitions) not found")
+
+
+_run_d05 = run
+
+
+def run(ctx, rep, tier):
+    _run_d05(ctx, rep, tier)
+    from .shared import delegate
+    delegate(ctx, rep, tier, "C05", ("C05.d",), "C02.h", "override modes / targets of conditional actions cover every branch: the in-call continuation after a redirecting action re-dispatches instead of jumping to the stale target")
